@@ -20,7 +20,7 @@ def mkJwsRegistry7797 (allowed : Option (List String)) (strict : Bool := true) (
 /-- `rfc7515.registry.default_registry`. -/
 def jwsDefaultRegistry : JwsRegistry := mkJwsRegistry jwsDefaultAllowed jwsDefaultStrict
 
-/-- `construct_registry(algorithms)`: `if algorithms:` — an empty list selects the default registry. -/
+/-- `construct_registry(algorithms)`: `if algorithms is not None:`. -/
 def constructRegistry (algorithms : Option (List String)) : JwsRegistry :=
   match allowedActive algorithms with
   | some l => mkJwsRegistry (some l)
